@@ -1,4 +1,5 @@
 import Sourcer.Wire
+import Sourcer.EnvWire
 /-
   Line protocol driver: one request per line on stdin, one reply per line on stdout.
 
@@ -143,6 +144,14 @@ def handle (st : St) (line : String) : St × String :=
     match r with
     | some out => (st, out)
     | none => (st, "error bad-machine-request")
+  | some (.list (.atom "envfv" :: xs)) =>
+    match Sourcer.X.handleEnvFv xs with
+    | some out => (st, out)
+    | none => (st, "error bad-envfv-request")
+  | some (.list (.atom "env" :: xs)) =>
+    match Sourcer.X.handleEnv xs with
+    | some out => (st, out)
+    | none => (st, "error bad-env-request")
   | some (.list (.atom "prepcore" :: xs)) =>
     match handlePrepCore st xs with
     | some out => (st, out)
